@@ -547,7 +547,7 @@ class ComparisonReporter:
 
     def _report_transform_processing_times(self, baseline_stats, contender_stats):
         lines = []
-        if baseline_stats.total_transform_processing_times is None:
+        if baseline_stats.total_transform_processing_times is None or contender_stats.total_transform_processing_times is None:
             return lines
         for baseline in baseline_stats.total_transform_processing_times:
             transform_id = baseline["id"]
